@@ -94,6 +94,14 @@ def step (st : St) (toks : List Val) (impl : String) : St × Out :=
     match mget h with
     | some b => mutate st (.rmf h k) [if b.containsForward k then "rmf.hit" else "rmf.miss"]
     | none => bad st
+  | [.w "rangemut", .i h, .i k] =>
+    -- Range with a callback that removes key k on its first call: the visits are judged in the harness (each visited pair is a pair of the
+    -- bimap at that moment, no key twice: `C11.range_once` on the bimap as it is at each visit); the effect is `RemoveForward k` unless empty
+    match mget h with
+    | some b =>
+      if b.len = 0 then (st, { model := "ok", spec := some "ok", tags := ["rangemut.empty"] })
+      else mutate st (.rmf h k) [if b.containsForward k then "rangemut.hit" else "rangemut.miss"]
+    | none => bad st
   | [.w "rmr", .i h, .i v] =>
     match mget h with
     | some b => mutate st (.rmr h v) [if b.containsReverse v then "rmr.hit" else "rmr.miss"]
